@@ -642,8 +642,23 @@ impl Run {
                 }
             }
         }
-        if code == 0 && (!inconclusive.is_empty() || !missing.is_empty()) {
-            for w in &inconclusive {
+        // A few cases that could not be judged (setup failure under load, watchdog that did not
+        // reproduce) do not invalidate the rest of the exploration: they are reported in the
+        // evidence. Many of them mean the run as a whole is inconclusive.
+        let evals = self.evaluations.load(Ordering::Relaxed);
+        let tolerated = (evals / 200).clamp(2, 25) as usize;
+        let too_many_inconclusive = inconclusive.len() > tolerated;
+        if code == 0 && !inconclusive.is_empty() && !too_many_inconclusive {
+            println!(
+                "note property={} {} case(s) could not be judged and are not counted (tolerated: {}); first: {}",
+                self.prop,
+                inconclusive.len(),
+                tolerated,
+                inconclusive[0]
+            );
+        }
+        if code == 0 && (too_many_inconclusive || !missing.is_empty()) {
+            for w in inconclusive.iter().take(10) {
                 println!("INCONCLUSIVE property={} {}", self.prop, w);
             }
             for m in &missing {
@@ -702,6 +717,10 @@ impl Run {
         );
         coverage.insert("known_findings_excluded".into(), json!(hits));
         coverage.insert("inconclusive".into(), json!(inconclusive));
+        coverage.insert(
+            "distinct_cap_reached".into(),
+            json!(self.distinct.lock().unwrap().len() >= DISTINCT_CAP),
+        );
         if !self.profile.is_empty() {
             coverage.insert("profile".into(), json!(self.profile));
         }
